@@ -350,6 +350,115 @@ def corr_cases(tier, rng):
     return cases
 
 
+LSTM_METHODS = [("sup", "constraint_lstm_no_cifg"), ("sup", "constraint_lstm_no_peep_hole"), ("sup", "constraint_lstm_no_projection"),
+                ("sup", "constraint_lstm_no_normalisation"), ("sup", "constraint_lstm_weights"), ("sup", "constraint_lstm_weight_dimensions"),
+                ("sem", "constraint_lstm_dimensions"), ("sem", "constraint_lstm_inputs"), ("sem", "constraint_lstm_intermediates"),
+                ("sem", "constraint_lstm_variables")]
+
+
+def lstm_correspondence(tier, rng, okx):
+    """hand model of the LSTM constraints (coq/model/Constraints.v, CMD lstm) against the real methods on real operators built
+    with testutil.create_lstm_op and then modified; returns (differences, cases, documented-vs-enforced differences)"""
+    from ethosu.vela.test import testutil
+    from ethosu.vela.data_type import DataType
+    from ethosu.vela.tensor import Tensor
+    from ethosu.vela.tflite_model_semantic import TFLiteSemantic
+    from ethosu.vela.tflite_supported_operators import TFLiteSupportedOperators
+    cls = {"sem": TFLiteSemantic, "sup": TFLiteSupportedOperators}
+
+    def fresh():
+        op = testutil.create_lstm_op(2, 3, 8, 8, DataType.int8)
+        # create_lstm_op shares one weight / bias tensor between positions: give every position its own object
+        for k, t in enumerate(op.inputs):
+            if t is not None and k not in (0, 18, 19):
+                c = t.clone("_%d" % k)
+                c.values = t.values
+                op.inputs[k] = c
+        return op
+
+    muts = [[]]
+    for k in range(1, 24):
+        muts.append([("none", k)])
+    muts += [[("none", 1), ("none", 5)], [("none", 1), ("none", 5), ("none", 12)], [("none", 2), ("none", 1), ("none", 5)]]
+    for k in (9, 10, 11, 16, 17, 20, 21, 22, 23):
+        muts.append([("tensor", k)])
+    for k in (5, 6, 7, 8, 1):
+        for r in (1, 3, 4):
+            muts.append([("rank", k, r)])
+    muts += [[("len", n)] for n in (0, 5, 19, 20, 23, 25, 30)] + [[("inter", n)] for n in (0, 4, 6)]
+    muts += [[("var", 18, False)], [("var", 19, False)], [("var", 18, False), ("var", 19, False)]]
+    muts += [[("ifm_rank", r)] for r in (2, 4)] + [[("ofm_rank", r)] for r in (2, 4)] + [[("ifm_rank", 2), ("ofm_rank", 2)]]
+    for _ in range(150 if tier == "quick" else 1500):
+        m = []
+        for k in range(1, 24):
+            if k in (18, 19):
+                continue
+            present_now = k in range(1, 9) or k in range(12, 16)
+            if rng.random() < 0.12:
+                m.append(("none", k) if present_now else ("tensor", k))
+        if rng.random() < 0.2:
+            m.append(("rank", rng.choice([5, 6, 7, 8]), rng.choice([1, 3])))
+        muts.append(m)
+    cases, real = [], []
+    for m in muts:
+        op = fresh()
+        for a in m:
+            if a[0] == "none":
+                op.inputs[a[1]] = None
+            elif a[0] == "tensor":
+                op.inputs[a[1]] = Tensor([8], DataType.int16, "extra%d" % a[1])
+            elif a[0] == "rank" and op.inputs[a[1]] is not None:
+                op.inputs[a[1]].shape = [2] * a[2]
+            elif a[0] == "len":
+                op.inputs = (op.inputs + [None] * 8)[:a[1]]
+            elif a[0] == "inter":
+                op.intermediates = (op.intermediates + op.intermediates)[:a[1]]
+            elif a[0] == "var":
+                op.inputs[a[1]].is_variable = a[2]
+            elif a[0] == "ifm_rank":
+                op.inputs[0].shape = [2] * a[1]
+            elif a[0] == "ofm_rank":
+                op.outputs[0].shape = [2] * a[1]
+        ins = op.inputs
+        present = [0 if t is None else 1 for t in ins]
+        ranks = [-1 if t is None else len(t.shape) for t in ins]
+        var = [-1 if t is None else int(bool(t.is_variable)) for t in ins]
+        flat_case = [len(present)] + present + [len(ranks)] + ranks + [len(var)] + var + [len(op.ifm.shape) if op.ifm is not None else -1, len(op.ofm.shape), len(ins), len(op.intermediates)]
+        vals = []
+        for tag, nm in LSTM_METHODS:
+            try:
+                vals.append(1 if getattr(cls[tag], nm)(op)[0] else 0)
+            except (AttributeError, TypeError):
+                vals.append(2)
+            except IndexError:
+                vals.append(3)
+        cases.append((m, flat_case, len(ins)))
+        real.append(vals)
+    diffs, doc = [], []
+    if okx:
+        outs = models.run_parallel("lstm", [c[1] for c in cases], exe_name="constraints")
+        for (m, fc, n_in), rv, o in zip(cases, real, outs):
+            for k, (tag, nm) in enumerate(LSTM_METHODS):
+                if k < 6 and n_in != 24:
+                    continue          # the supported-operator methods are only reached with 24 inputs
+                if k == 9 and n_in < 20 and rv[k] != 2:
+                    continue          # fewer than 20 inputs: the slice is short, nothing is claimed
+                if k == 6 and n_in == 0:
+                    continue          # no IFM at all
+                if o[k] != rv[k]:
+                    diffs.append(dict(constraint=nm, params=dict(modifications=m), model=o[k], real=rv[k]))
+            if n_in == 24:
+                # the drivers' decision in their evaluation order vs the documented reading
+                enforced = 1
+                for k in range(6):
+                    if rv[k] != 1:
+                        enforced = 0 if rv[k] == 0 else 2
+                        break
+                if enforced != o[10] or (enforced in (0, 1) and enforced != o[11]):
+                    doc.append(dict(constraint="constraint_lstm_*", params=dict(modifications=m), enforced=enforced, model=o[10], documented=o[11]))
+    return diffs, len(cases), doc
+
+
 def run_correspondence(res, tier, rng, okx):
     """returns (model_diffs, doc_diffs, stats): model vs real method, documented reading vs real method"""
     from ethosu.vela.tflite_supported_operators import TFLiteSupportedOperators as TSO
@@ -401,7 +510,13 @@ def run_correspondence(res, tier, rng, okx):
         for (w, s), a, b in zip(hc, hreal, hm):
             if a != b:
                 model_diffs.append(dict(constraint="calc_resize_factor", params=dict(ifm_width=w, stride_x=s), model=b, real=a))
-    stats = dict(cases=len(cases) + len(hc), per_constraint=dict(per), distinct=len(nontrivial), unbuildable_cases=builds,
+    ldiffs, lcases, ldoc = lstm_correspondence(tier, rng, okx)
+    model_diffs += ldiffs
+    for d in ldoc[:1]:
+        doc_diffs["constraint_lstm_supported"] = dict(constraint="constraint_lstm_supported", params=d["params"], documented=d["documented"],
+                                                      real=d["enforced"], nice=True)
+    per["lstm (10 methods per case)"] = lcases
+    stats = dict(cases=len(cases) + len(hc) + lcases, per_constraint=dict(per), distinct=len(nontrivial) + lcases, unbuildable_cases=builds,
                  raises=sum(1 for r in real if r[0] == "raise"))
     return model_diffs, doc_diffs, stats
 
@@ -813,6 +928,92 @@ def pair_nets():
     return out
 
 
+LSTM = "UNIDIRECTIONAL_SEQUENCE_LSTM"
+
+
+def n_lstm(variant="plain", tm=False, shape=(1, 3, 8), dt="int8", mut=None, tail=False, layers=1):
+    """fully integer UNIDIRECTIONAL_SEQUENCE_LSTM (netgen.lstm_layer: 24 inputs, two variable states, five intermediates),
+    optionally modified after construction (mut) and followed by RESHAPE + FULLY_CONNECTED (tail)"""
+    def f(rng):
+        net = ng.Net("lstm")
+        x = net.input(list(shape), dt, 0.05, 0, name="input0")
+        y = ng.lstm_layer(net, rng, x, 8, tm, variant)
+        o = net.ops[-1]
+        if mut is not None:
+            mut(net, o)
+        for k in range(1, layers):
+            y = ng.lstm_layer(net, rng, y, 8, tm, "plain", tag="l%d" % k)
+        if tail:
+            flat = net.tensor([y.shape[0], y.shape[1] * y.shape[2]], "int8", y.scale, y.zp)
+            shp = net.tensor([2], "int32", None, None, list(flat.shape), name="tail_shape")
+            net.op("RESHAPE", [y, shp], [flat], dict(NewShape=list(flat.shape)))
+            y = ng.fully_connected(net, rng, flat, 4)
+        net.output(y)
+        return net
+    return f
+
+
+def _m_missing(k):
+    def f(net, o):
+        o["inputs"][k] = None
+    return f
+
+
+def _m_rw3d(net, o):
+    w = o["inputs"][6]
+    w.shape = list(w.shape) + [1]
+    w.data = w.data.reshape(w.shape)
+
+
+def _m_inputs(n):
+    def f(net, o):
+        o["inputs"] = (o["inputs"] + [None] * 4)[:n]
+    return f
+
+
+def _m_inter4(net, o):
+    o["intermediates"] = o["intermediates"][:4]
+
+
+def _m_extra(k):
+    def f(net, o):
+        o["inputs"][k] = net.tensor([8], "int16", 0.0005, 0, [100 * (j + 1) for j in range(8)], name="extra%d" % k)
+    return f
+
+
+def _m_nonvar(k):
+    def f(net, o):
+        o["inputs"][k].is_variable = False
+    return f
+
+
+LSTM_NETS = [
+    ("lstm_plain", n_lstm(), LSTM, "inside: batch major"),
+    ("lstm_time_major", n_lstm(tm=True, shape=(3, 1, 8)), LSTM, "inside: time major"),
+    ("lstm_batch2", n_lstm(shape=(2, 3, 8)), LSTM, "inside: batch 2 (the batch sentence reads a 3D shape as batch 1)"),
+    ("lstm_two_layers", n_lstm(layers=2), LSTM, "inside: two stacked layers"),
+    ("lstm_tail", n_lstm(tail=True), LSTM, "inside, followed by RESHAPE and FULLY_CONNECTED"),
+    ("lstm_no_bias13", n_lstm(mut=_m_missing(13)), LSTM, "inside: a gate bias is absent (no sentence asks for it)"),
+    ("lstm_cifg", n_lstm("cifg"), LSTM, "CIFG"),
+    ("lstm_cifg_tail", n_lstm("cifg", tail=True), LSTM, "CIFG, followed by RESHAPE and FULLY_CONNECTED"),
+    ("lstm_peephole", n_lstm("peephole"), LSTM, "peephole"),
+    ("lstm_projection", n_lstm("projection"), LSTM, "projection"),
+    ("lstm_lnorm", n_lstm("lnorm"), LSTM, "layer normalisation"),
+    ("lstm_peephole_11_only", n_lstm(mut=_m_extra(11)), LSTM, "only the last peephole tensor present"),
+    ("lstm_lnorm_23_only", n_lstm(mut=_m_extra(23)), LSTM, "only the last normalisation tensor present"),
+    ("lstm_missing_w3", n_lstm(mut=_m_missing(3)), LSTM, "input weight 3 absent"),
+    ("lstm_missing_rw7", n_lstm(mut=_m_missing(7)), LSTM, "recurrent weight 7 absent"),
+    ("lstm_missing_rw8", n_lstm(mut=_m_missing(8)), LSTM, "recurrent weight 8 (the last one) absent"),
+    ("lstm_missing_w1_only", n_lstm(mut=_m_missing(1)), LSTM, "only the input-gate input weight absent (not the converter's CIFG layout)"),
+    ("lstm_rw_3d", n_lstm(mut=_m_rw3d), LSTM, "a recurrent weight tensor is 3D"),
+    ("lstm_23_inputs", n_lstm(mut=_m_inputs(23)), LSTM, "23 inputs"),
+    ("lstm_25_inputs", n_lstm(mut=_m_inputs(25)), LSTM, "25 inputs"),
+    ("lstm_4_intermediates", n_lstm(mut=_m_inter4), LSTM, "4 intermediates"),
+    ("lstm_output_state_not_variable", n_lstm(mut=_m_nonvar(18)), LSTM, "output state tensor not variable"),
+    ("lstm_cell_state_not_variable", n_lstm(mut=_m_nonvar(19)), LSTM, "cell state tensor not variable"),
+    ("lstm_uint8", n_lstm(dt="uint8"), LSTM, "unsigned IFM"),
+]
+
 MX, AV = "MAX_POOL_2D", "AVERAGE_POOL_2D"
 RB, RN = "RESIZE_BILINEAR", "RESIZE_NEAREST_NEIGHBOR"
 # (name, builder, TFLite opcode of the operator under test, what it probes)
@@ -1031,7 +1232,8 @@ def op_facts(sg, op):
     o = op["options"] or {}
     ins = [T[i] if i >= 0 else None for i in op["inputs"]]
     outs = [T[i] for i in op["outputs"]]
-    f = dict(code=code, ofm=outs[0], opts=o, ifm=None, ifm2=None, weights=None, bias=None)
+    f = dict(code=code, ofm=outs[0], opts=o, ifm=None, ifm2=None, weights=None, bias=None, raw_inputs=list(op["inputs"]),
+             n_intermediates=len(op.get("intermediates") or []), tensors=T)
     if code in ("CONV_2D", "DEPTHWISE_CONV_2D", "FULLY_CONNECTED"):
         f["ifm"], f["weights"] = ins[0], ins[1]
         f["bias"] = ins[2] if len(ins) > 2 else None
@@ -1162,6 +1364,10 @@ def doc_oracle(sentence, f, summary):
     m = re.fullmatch(r"IFM depth must be no greater than (\d+)", s)
     if m:
         return f["ifm"]["shape"][-1] <= int(m.group(1))
+    if f["code"] == LSTM:
+        v = lstm_oracle(s, f)
+        if v is not None:
+            return v
     # sentences ending in a value list (data types / operator types)
     main = [t for t in (f["ifm"], f["ifm2"], f["weights"], f["ofm"]) if t is not None]
     act = {0: None, 1: "RELU", 2: "RELU_N1_TO_1", 3: "RELU6", 4: "TANH", 5: "SIGN_BIT"}.get(f["opts"].get("FusedActivationFunction", 0), "?")
@@ -1190,6 +1396,51 @@ def doc_oracle(sentence, f, summary):
     m = re.fullmatch(r"Scalar Input tensors are only valid for op type: (.*)", s)
     if m:
         return not any(t is not None and t["shape"] == [] for t in f["ins"]) or f["code"] in m.group(1).split(", ")
+    return None
+
+
+_var_cache = {}
+
+
+def variable_flags(path):
+    """is_variable of every tensor of the first subgraph (plain flatbuffer walk)"""
+    if path not in _var_cache:
+        from tfl import Model
+        buf = bytearray(open(path, "rb").read())
+        sg = Model.Model.GetRootAsModel(buf, 0).Subgraphs(0)
+        _var_cache.clear()
+        _var_cache[path] = [bool(sg.Tensors(i).IsVariable()) for i in range(sg.TensorsLength())]
+    return _var_cache[path]
+
+
+def lstm_oracle(s, f):
+    """independent reading of the LSTM sentences of the report; inputs: 0 IFM, 1-4 input weights, 5-8 recurrent weights,
+    9-11 peephole, 12-15 gate biases, 16-17 projection, 18-19 states, 20-23 layer-normalisation coefficients"""
+    ins = f["raw_inputs"]
+    at = lambda k: ins[k] if k < len(ins) else -1
+    T = f["tensors"]
+    m = re.fullmatch(r"Must have (\d+) input tensors", s)
+    if m:
+        return len(ins) == int(m.group(1))
+    m = re.fullmatch(r"Must have (\d+) intermediate tensors", s)
+    if m:
+        return f["n_intermediates"] == int(m.group(1))
+    if s == "State tensors must be variable":
+        return "is_variable" in f and all(at(k) >= 0 and f["is_variable"][at(k)] for k in (18, 19))
+    if s == "IFM and OFM must have 3D shape":
+        return len(f["ifm"]["shape"]) == 3 and len(f["ofm"]["shape"]) == 3
+    if s == "Must not use CIFG":
+        return at(1) >= 0            # CIFG couples the input gate to the forget gate: no input-to-input weights
+    if s == "Must not use Peephole":
+        return all(at(k) < 0 for k in (9, 10, 11))
+    if s == "Must not use Projection":
+        return all(at(k) < 0 for k in (16, 17))
+    if s == "Must not use Normalisation":
+        return all(at(k) < 0 for k in (20, 21, 22, 23))
+    if s == "All input and recurrent weights must be available":
+        return all(at(k) >= 0 for k in range(1, 9))
+    if s == "All recurrent weights must be 2D":
+        return all(len(T[at(k)]["shape"]) == 2 for k in range(5, 9) if at(k) >= 0)
     return None
 
 
@@ -1243,6 +1494,11 @@ def analyse(result, name, opcode, ti=None):
             pass
     real, type_supported, _ = eval_listed_real(path, opcode, out_names[0] if out_names else None)
     facts = op_facts(s0, s0["operators"][ti])
+    if opcode == LSTM:
+        try:
+            facts["is_variable"] = variable_flags(path)
+        except Exception:
+            pass
     rows = []
     if listed is not None and real is not None:
         docs_real = [d for d, _, _, _ in real]
@@ -1460,7 +1716,7 @@ def run(tier):
              "the sentence the report prints for %s and the predicate the compiler enforces differ: parameters %s -> documented %s, enforced %s" % (
                  name, json.dumps(d["params"])[:160], d["documented"], d["real"]))
     # (c) placement
-    nets = list(NETS) + pair_nets()
+    nets = list(NETS) + pair_nets() + list(LSTM_NETS)
     n_fixed = len(nets)
     if tier == "thorough":
         nets += random_nets(random.Random("c16rnd/%d" % vlib.seed()), 150)
